@@ -352,6 +352,150 @@ impl FrequencySketch {
 
 }
 }
+// =====================================================================
+// C14 as lemmas over the contracts: what the postconditions of increment / reset mean for the ESTIMATE of a key
+// =====================================================================
+pub mod props {
+use vstd::prelude::*;
+use crate::spec::*;
+use crate::bv::*;
+broadcast use {lemma_start, lemma_nib_le};
+
+/// the four counters of a key sit at four different nibble positions
+pub proof fn lemma_ctr_positions(hash: u64, d1: int, d2: int)
+    requires 0 <= d1 < 4, 0 <= d2 < 4, d1 != d2
+    ensures start(hash) + d1 != start(hash) + d2, start(hash) + d1 < 16,
+{ }
+
+pub proof fn lemma_min_upto_bounds(t: Seq<u64>, mask: u32, hash: u64, k: int)
+    requires 0 < k <= 4
+    ensures min_upto(t, mask, hash, k) <= 15,
+        forall|d: int| 0 <= d < k ==> min_upto(t, mask, hash, k) <= #[trigger] ctr(t, mask, hash, d),
+        exists|d: int| 0 <= d < k && min_upto(t, mask, hash, k) == #[trigger] ctr(t, mask, hash, d),
+    decreases k
+{
+    if k > 1 { lemma_min_upto_bounds(t, mask, hash, k - 1); }
+    assert(ctr(t, mask, hash, k - 1) <= 15);
+    if k == 1 { assert(min_upto(t, mask, hash, 0) == 255); assert(min_upto(t, mask, hash, 1) == ctr(t, mask, hash, 0)); }
+}
+
+/// pointwise monotone maps commute with the minimum of the four counters
+pub proof fn lemma_min_upto_map(t: Seq<u64>, t2: Seq<u64>, mask: u32, hash: u64, k: int, f: spec_fn(u64) -> u64)
+    requires 0 < k <= 4,
+        forall|d: int| 0 <= d < k ==> #[trigger] ctr(t2, mask, hash, d) == f(ctr(t, mask, hash, d)),
+        forall|a: u64, b: u64| a <= b <= 15 ==> #[trigger] f(a) <= #[trigger] f(b),
+    ensures min_upto(t2, mask, hash, k) == f(min_upto(t, mask, hash, k))
+    decreases k
+{
+    lemma_min_upto_bounds(t, mask, hash, k);
+    if k == 1 {
+        assert(min_upto(t, mask, hash, 0) == 255); assert(min_upto(t2, mask, hash, 0) == 255);
+        assert(ctr(t, mask, hash, 0) <= 15); assert(ctr(t2, mask, hash, 0) == f(ctr(t, mask, hash, 0)));
+    } else {
+        lemma_min_upto_map(t, t2, mask, hash, k - 1, f);
+        lemma_min_upto_bounds(t, mask, hash, k - 1);
+        let a = min_upto(t, mask, hash, k - 1); let b = ctr(t, mask, hash, k - 1);
+        assert(b <= 15);
+        assert(ctr(t2, mask, hash, k - 1) == f(b));
+        if a <= b { assert(f(a) <= f(b)); } else { assert(f(b) <= f(a)); }
+    }
+}
+
+/// C14 "recording a key": after `increment(hash)` without an aging step the estimate of THAT key is min(old + 1, 15)
+pub proof fn lemma_record_self(t: Seq<u64>, t2: Seq<u64>, mask: u32, hash: u64)
+    requires t.len() > 0, t2.len() == t.len(), t.len() == mask as nat + 1,
+        forall|w: int, c: u64| 0 <= w < t.len() && c < 16 ==> #[trigger] nib(t2[w], c) == bump(t, mask, hash, w, c, 4),
+    ensures freq(t2, mask, hash) == (if freq(t, mask, hash) < 15 { (freq(t, mask, hash) + 1) as u64 } else { 15 }), freq(t2, mask, hash) <= 15,
+{
+    let f = |x: u64| if x < 15 { (x + 1) as u64 } else { 15u64 };
+    assert forall|d: int| 0 <= d < 4 implies #[trigger] ctr(t2, mask, hash, d) == f(ctr(t, mask, hash, d)) by {
+        let w = idx(hash, d, mask); let c = (start(hash) + d) as u64;
+        lemma_idx_bound(hash, d, mask);
+        assert(c < 16);
+        assert(target_lt(hash, mask, w, c, 4));
+        assert(nib(t2[w], c) == bump(t, mask, hash, w, c, 4));
+        assert(nib(t[w], c) <= 15);
+    }
+    lemma_min_upto_map(t, t2, mask, hash, 4, f);
+    lemma_min_upto_bounds(t, mask, hash, 4);
+}
+
+pub proof fn lemma_idx_bound(hash: u64, d: int, mask: u32)
+    requires 0 <= d < 4
+    ensures 0 <= idx(hash, d, mask) <= mask
+{
+    let m = mix(hash, SEEDS[d]);
+    assert((m & (mask as u64)) <= mask as u64) by(bit_vector);
+}
+
+/// C14 "recording other keys never lowers an estimate": every key's estimate is unchanged or one higher
+pub proof fn lemma_record_other(t: Seq<u64>, t2: Seq<u64>, mask: u32, hash: u64, g: u64)
+    requires t.len() > 0, t2.len() == t.len(), t.len() == mask as nat + 1,
+        forall|w: int, c: u64| 0 <= w < t.len() && c < 16 ==> #[trigger] nib(t2[w], c) == bump(t, mask, hash, w, c, 4),
+    ensures freq(t, mask, g) <= freq(t2, mask, g) <= freq(t, mask, g) + 1, freq(t2, mask, g) <= 15,
+{
+    lemma_min_upto_bounds(t, mask, g, 4);
+    lemma_min_upto_bounds(t2, mask, g, 4);
+    assert forall|d: int| 0 <= d < 4 implies ctr(t, mask, g, d) <= #[trigger] ctr(t2, mask, g, d) <= ctr(t, mask, g, d) + 1 by {
+        let w = idx(g, d, mask); let c = (start(g) + d) as u64;
+        lemma_idx_bound(g, d, mask);
+        assert(c < 16);
+        assert(nib(t2[w], c) == bump(t, mask, hash, w, c, 4));
+        assert(nib(t[w], c) <= 15);
+    }
+    let d2 = choose|d: int| 0 <= d < 4 && min_upto(t2, mask, g, 4) == #[trigger] ctr(t2, mask, g, d);
+    assert(ctr(t, mask, g, d2) <= ctr(t2, mask, g, d2));
+    let d1 = choose|d: int| 0 <= d < 4 && min_upto(t, mask, g, 4) == #[trigger] ctr(t, mask, g, d);
+    assert(ctr(t2, mask, g, d1) <= ctr(t, mask, g, d1) + 1);
+}
+
+/// C14 "equals c when no other key collides with it": a key none of whose counters is touched keeps its estimate
+pub proof fn lemma_record_disjoint(t: Seq<u64>, t2: Seq<u64>, mask: u32, hash: u64, g: u64)
+    requires t.len() > 0, t2.len() == t.len(), t.len() == mask as nat + 1,
+        forall|w: int, c: u64| 0 <= w < t.len() && c < 16 ==> #[trigger] nib(t2[w], c) == bump(t, mask, hash, w, c, 4),
+        forall|d: int| 0 <= d < 4 ==> !target_lt(hash, mask, #[trigger] idx(g, d, mask), (start(g) + d) as u64, 4),
+    ensures freq(t2, mask, g) == freq(t, mask, g),
+{
+    let f = |x: u64| x;
+    assert forall|d: int| 0 <= d < 4 implies #[trigger] ctr(t2, mask, g, d) == f(ctr(t, mask, g, d)) by {
+        let w = idx(g, d, mask); let c = (start(g) + d) as u64;
+        lemma_idx_bound(g, d, mask);
+        assert(c < 16);
+        assert(nib(t2[w], c) == bump(t, mask, hash, w, c, 4));
+    }
+    lemma_min_upto_map(t, t2, mask, g, 4, f);
+}
+
+/// C14 "an aging step floor-halves every estimate at once"
+pub proof fn lemma_aging(t: Seq<u64>, t2: Seq<u64>, mask: u32, g: u64)
+    requires t.len() > 0, t2.len() == t.len(), t.len() == mask as nat + 1,
+        forall|w: int, c: u64| 0 <= w < t.len() && c < 16 ==> #[trigger] nib(t2[w], c) == nib(t[w], c) / 2,
+    ensures freq(t2, mask, g) == freq(t, mask, g) / 2,
+{
+    let f = |x: u64| x / 2;
+    assert forall|d: int| 0 <= d < 4 implies #[trigger] ctr(t2, mask, g, d) == f(ctr(t, mask, g, d)) by {
+        let w = idx(g, d, mask); let c = (start(g) + d) as u64;
+        lemma_idx_bound(g, d, mask);
+        assert(c < 16);
+    }
+    lemma_min_upto_map(t, t2, mask, g, 4, f);
+}
+
+/// C14 "at least c": the lookup count c of a key (saturating at 15, floor-halved by aging) never exceeds its estimate.
+/// One step of the induction over recorded events: `cnt'`/`est'` are count and estimate after the event.
+pub open spec fn count_step(cnt: int, same_key: bool, aged: bool) -> int {
+    let c1 = if same_key { if cnt < 15 { cnt + 1 } else { 15 } } else { cnt };
+    if aged { c1 / 2 } else { c1 }
+}
+pub proof fn lemma_never_underestimates(cnt: int, est: int, est_bumped: int, est2: int, same_key: bool, aged: bool)
+    requires 0 <= cnt <= est <= 15,
+        same_key ==> est_bumped == (if est < 15 { est + 1 } else { 15 }),        // lemma_record_self
+        !same_key ==> est <= est_bumped <= 15,                                      // lemma_record_other
+        est2 == (if aged { est_bumped / 2 } else { est_bumped }),                    // lemma_aging
+    ensures 0 <= count_step(cnt, same_key, aged) <= est2 <= 15,
+{ }
+} // mod props
+
 // vacuity guard: with every broadcast axiom of this unit in scope `false` must NOT be provable
 pub mod canary {
 use vstd::prelude::*;
